@@ -101,15 +101,19 @@ DecToks(n, mpat, lead, f, ex, neg, pat) ==
 \* ---- rational: styles 1 decimal, 2 0x on both parts, 3 0x on the numerator only, 4 `base 32` (identifiers), 5 `base 7`
 RatMagsN == << <<>>, One, FromNat(6), FromNat(22), P2m1(32), P2(32), Add(P2(64), FromNat(2)), P2m1(128), Add(P2(192), FromNat(24690)) >>
 RatMagsD == << <<>>, One, FromNat(4), FromNat(7), FromNat(9), P2m1(32), P2(32), P2(64), Add(P2(128), One) >>   \* first = no denominator
-RatToks(style, nm, dm, relaxed, neg, pat) ==
+\* sg: 0 no sign, 1 `-n/d`, 2 `n/-d`, 3 `-n/-d`, 4 `+n/-d`, 5 `-n/+d`
+Plus == Tok("sign", <<cPlus>>)
+RatToks(style, nm, dm, relaxed, sg, pat) ==
   LET radix == IF style = 1 THEN 10 ELSE IF style \in {2, 3} THEN 16 ELSE IF style = 4 THEN 32 ELSE 7
       part(mag, pfx) ==
         LET txt == Sep(DigitText(mag, radix, FALSE), pat) IN
         (IF style >= 4 /\ HasLetter(txt) THEN <<Tok("uscore", <<cUs>>)>> ELSE <<>>)
         \o (IF pfx THEN <<Tok("prefix", <<48, 120>>)>> ELSE <<>>) \o <<Tok("digits", txt)>>
-  IN (IF relaxed THEN <<Tok("tilde", <<126>>)>> ELSE <<>>) \o (IF neg THEN <<Minus>> ELSE <<>>)
+  IN (IF relaxed THEN <<Tok("tilde", <<126>>)>> ELSE <<>>)
+     \o (IF sg \in {1, 3, 5} THEN <<Minus>> ELSE IF sg = 4 THEN <<Plus>> ELSE <<>>)
      \o part(RatMagsN[nm], style \in {2, 3})
-     \o (IF dm = 1 THEN <<>> ELSE <<Tok("slash", <<47>>)>> \o part(RatMagsD[dm], style = 2))
+     \o (IF dm = 1 THEN <<>> ELSE <<Tok("slash", <<47>>)>> \o (IF sg \in {2, 3, 4} THEN <<Minus>> ELSE IF sg = 5 THEN <<Plus>> ELSE <<>>)
+                                    \o part(RatMagsD[dm], style = 2))
      \o (IF style >= 4 THEN <<Tok("base", STR_base), Tok("radix", Dec(radix))>> ELSE <<>>)
 
 \* ---- single-token mutations (index m) of a token sequence
@@ -156,7 +160,7 @@ Params(f) ==
                            fr \in {0, 1, 1000}, ex \in 1..Len(HexExps), ng \in 0..1, pt \in {1, 4}}
   ELSE IF f = "dec" THEN {<<n, mp, ld, fr, ex, ng, pt>> : n \in {1, 9, 10, 19, 20, 39, 40, 60}, mp \in 0..6, ld \in {0, 2},
                            fr \in {-1, 0, 3, 1000}, ex \in 1..Len(DecExps), ng \in 0..1, pt \in {1, 2}}
-  ELSE {<<s, nm, dm, rl, ng, pt>> : s \in 1..5, nm \in 1..Len(RatMagsN), dm \in 1..Len(RatMagsD), rl \in 0..1, ng \in 0..1, pt \in 1..2}
+  ELSE {<<s, nm, dm, rl, ng, pt>> : s \in 1..5, nm \in 1..Len(RatMagsN), dm \in 1..Len(RatMagsD), rl \in 0..1, ng \in 0..5, pt \in 1..2}
 \* `fr` = 1000 stands for "all digits behind the point"
 Fr(fr, total) == IF fr = 1000 THEN total ELSE fr
 ToksOf(f, p) ==
@@ -164,7 +168,7 @@ ToksOf(f, p) ==
   ELSE IF f = "bin" THEN BinToks(p[1], p[2], p[3], Fr(p[4], p[1] + p[3]), p[5], p[6] = 1, p[7])
   ELSE IF f = "hex" THEN HexToks(p[1], p[2], p[3], p[4], Fr(p[5], p[2] + p[4]), p[6], p[7] = 1, p[8])
   ELSE IF f = "dec" THEN DecToks(p[1], p[2], p[3], Fr(p[4], p[1] + p[3]), p[5], p[6] = 1, p[7])
-  ELSE RatToks(p[1], p[2], p[3], p[4] = 1, p[5] = 1, p[6])
+  ELSE RatToks(p[1], p[2], p[3], p[4] = 1, p[5], p[6])
 \* shapes the Rust lexer or the grammar cannot express (not literals of the language at all): skipped
 Sensible(f, p) ==
   IF f = "int" THEN (p[3] = 0 \/ MSigned(MacroOf(f, mi))) /\ (p[5] = 0 \/ IntStyles[p[1]] \in {-16, 16, 32, 36})
@@ -181,6 +185,7 @@ Sensible(f, p) ==
                          /\ (p[4] <= p[1] + p[3])
                          /\ (p[7] = 1 \/ p[4] # 1000)
   ELSE (p[2] # 1 \/ p[5] = 0) /\ (p[1] < 4 \/ p[3] # 1)                 \* no "-0"; `base N` only with a denominator
+       /\ (p[5] <= 1 \/ p[3] # 1)                                       \* a denominator sign needs a denominator
 Hash(p) == FoldLeftDomain(LAMBDA acc, i : (acc * 31 + p[i] + 7) % 100003, Seed + mi * 17, p)
 \* the parameter spaces differ in size: per-family thinning factors keep the families balanced
 KeepOf(f) == Keep * (IF f = "int" THEN 1 ELSE IF f = "bin" THEN 5 ELSE IF f = "hex" THEN 8 ELSE IF f = "dec" THEN 7 ELSE 3)
@@ -189,7 +194,8 @@ Pinned(f, p) ==
   \/ f = "dec" /\ p \in {<<10, 5, 0, 3, 1, 0, 1>>, <<10, 6, 0, 3, 1, 0, 1>>, <<1, 3, 2, 0, 1, 0, 1>>, <<1, 0, 2, 2, 1, 0, 1>>}
   \/ f = "bin" /\ p \in {<<32, 1, 0, -1, 1, 0, 1>>, <<33, 1, 0, -1, 1, 0, 1>>, <<1, 0, 0, -1, 1, 0, 1>>, <<5, 0, 0, 2, 1, 0, 1>>}
   \/ f = "hex" /\ p \in {<<1, 8, 1, 0, 0, 4, 1, 1>>, <<2, 9, 2, 0, 1, 2, 1, 1>>}
-  \/ f = "rat" /\ p \in {<<1, 4, 4, 0, 0, 1>>, <<1, 3, 3, 1, 1, 1>>, <<3, 6, 7, 0, 0, 1>>, <<1, 3, 8, 0, 0, 1>>, <<2, 9, 9, 1, 0, 1>>}
+  \/ f = "rat" /\ p \in {<<1, 4, 4, 0, 0, 1>>, <<1, 3, 3, 1, 1, 1>>, <<3, 6, 7, 0, 0, 1>>, <<1, 3, 8, 0, 0, 1>>, <<2, 9, 9, 1, 0, 1>>,
+                         <<1, 3, 3, 1, 3, 1>>, <<1, 4, 4, 0, 2, 1>>, <<1, 3, 4, 1, 2, 1>>, <<2, 6, 7, 0, 3, 1>>, <<1, 4, 3, 1, 4, 1>>, <<4, 4, 4, 0, 5, 1>>}
 
 Pick == /\ phase = "pick"
         /\ par' \in Params(fam)
